@@ -163,6 +163,13 @@ func checkStartup(r *R, sp engSpec, res *engResult) {
 			break
 		}
 	}
+	// an instance, once started, keeps firing - with the gun it was given: a gun that has been closed is finished
+	for _, e := range res.Evs {
+		if e.Kind == "shoot-in" && e.AfterClose {
+			r.Fail("gun-used-after-close", "instance %d was asked to shoot at %v with a gun the engine had already closed (startup %s, rps %s)", e.Inst, e.T, sp.Startup.Desc, sp.RPS.Desc)
+			break
+		}
+	}
 	// distinct ids numbered consecutively from 0
 	seen := map[int]bool{}
 	for _, id := range ids {
